@@ -1,3 +1,4 @@
+import sys
 #!/usr/bin/env python3
 """Regenerate /verif/MANIFEST.json from the tables below (single source of truth for claimed vs. not-applicable)."""
 import json, os, subprocess
@@ -117,6 +118,14 @@ def main():
         "not_applicable": na,
         "notes": "See DESIGN.md. Exit codes of every check: 0 held, 1 violation (VIOLATION line with replay file), 2 harness error.",
     }
+    # never write a manifest the schema rejects
+    import subprocess, tempfile
+    with tempfile.NamedTemporaryFile("w", suffix=".json", delete=False) as t:
+        json.dump(m, t, indent=1)
+    v = subprocess.run(["python3-vt", "-c", "import json,jsonschema,sys; jsonschema.validate(json.load(open(sys.argv[1])), json.load(open('/root/.vp/MANIFEST.schema.json')))", t.name], capture_output=True, text=True)
+    os.unlink(t.name)
+    if v.returncode != 0:
+        sys.exit("MANIFEST would be invalid, not written:\n" + v.stderr[-1500:])
     json.dump(m, open(os.path.join(HERE, "MANIFEST.json"), "w"), indent=1)
     print(f"MANIFEST.json: {len(checks)} checks, {len(na)} not applicable")
 
